@@ -144,7 +144,9 @@ func workerMain(args []string) int {
 			time.Sleep(500 * time.Millisecond)
 			st := runStarted.Load()
 			if st != 0 && time.Since(time.Unix(0, st)) > timeout {
-				fmt.Fprintf(os.Stderr, "HANG run=%d engine=%s after %v\n", curRun.Load(), eng.Name, timeout)
+				buf := make([]byte, 1<<18)
+				n := runtime.Stack(buf, true)
+				fmt.Fprintf(os.Stderr, "HANG run=%d engine=%s after %v\n%s\nENDHANG\n", curRun.Load(), eng.Name, timeout, buf[:n])
 				os.Exit(7)
 			}
 		}
